@@ -657,7 +657,9 @@ func genConfig(c *engine.Chooser, family string) Config {
 		for i := 0; i < n; i++ {
 			cfg.Handlers = append(cfg.Handlers, specs[pick(len(specs))])
 		}
-		p, q, r, B := Pkt{idX, 4, 1}, Pkt{idY, 5, 2}, Pkt{idX, 6, 3}, Pkt{idDelim, 0, 0}
+		// later packets are not larger than earlier ones, so a receive buffer recycled too early
+		// is reused in place (a larger packet would get a fresh buffer and hide it)
+		p, q, r, B := Pkt{idX, 6, 1}, Pkt{idY, 5, 2}, Pkt{idX, 4, 3}, Pkt{idDelim, 0, 0}
 		layouts := [][]Pkt{{p, q}, {B, p, q, B}, {B, B, p}, {p, B, q, B, r}, {p, B, q, r}}
 		cfg.S2C = layouts[pick(len(layouts))]
 		if family == "dispatch-sched" {
@@ -671,8 +673,15 @@ func genConfig(c *engine.Chooser, family string) Config {
 		// so receive buffers recycled through bot.Conn's pool are reused while packets are queued
 		cfg.Threshold = []int{-1, 64}[pick(2)]
 		n := []int{3, 5}[pick(2)]
+		bundled := pick(2) == 1
+		if bundled {
+			cfg.S2C = append(cfg.S2C, Pkt{idDelim, 0, 0})
+		}
 		for i := 0; i < n; i++ {
 			cfg.S2C = append(cfg.S2C, Pkt{[]int32{idX, idY}[i%2], 6, 30 + i})
+		}
+		if bundled {
+			cfg.S2C = append(cfg.S2C, Pkt{idDelim, 0, 0}, Pkt{idX, 6, 40})
 		}
 		cfg.Handlers = []HSpec{{true, 0, 0}}
 	case "dispatch-many":
